@@ -38,20 +38,21 @@ Record resp := mkResp {
   r_trailer : hmap;            (* res.Trailer: declared keys, values as known after the body *)
   r_body : list str;           (* successive reads of res.Body *)
   r_close : bool;              (* res.Close as set by the transport *)
-  r_uncompressed : bool }.     (* res.Uncompressed: transport undid a gzip it had solicited *)
+  r_uncompressed : bool;       (* res.Uncompressed: transport undid a gzip it had solicited *)
+  r_late : hmap }.             (* trailer fields the origin sent without declaring them in Trailer *)
 
 Definition set_hdr (r : resp) (h : hmap) : resp :=
   mkResp (r_major r) (r_minor r) (r_code r) (r_status r) h (r_cl r) (r_chunked r)
-         (r_trailer r) (r_body r) (r_close r) (r_uncompressed r).
+         (r_trailer r) (r_body r) (r_close r) (r_uncompressed r) (r_late r).
 Definition set_close (r : resp) (c : bool) : resp :=
   mkResp (r_major r) (r_minor r) (r_code r) (r_status r) (r_hdr r) (r_cl r) (r_chunked r)
-         (r_trailer r) (r_body r) c (r_uncompressed r).
+         (r_trailer r) (r_body r) c (r_uncompressed r) (r_late r).
 Definition set_chunked (r : resp) (c : bool) : resp :=
   mkResp (r_major r) (r_minor r) (r_code r) (r_status r) (r_hdr r) (r_cl r) c
-         (r_trailer r) (r_body r) (r_close r) (r_uncompressed r).
+         (r_trailer r) (r_body r) (r_close r) (r_uncompressed r) (r_late r).
 Definition set_body (r : resp) (bd : list str) : resp :=
   mkResp (r_major r) (r_minor r) (r_code r) (r_status r) (r_hdr r) (r_cl r) (r_chunked r)
-         (r_trailer r) bd (r_close r) (r_uncompressed r).
+         (r_trailer r) bd (r_close r) (r_uncompressed r) (r_late r).
 
 Definition nonempty (s : str) : bool := match s with [] => false | _ => true end.
 Definition reads_of (r : resp) : list str := filter nonempty (r_body r).
@@ -270,6 +271,13 @@ Fixpoint limit_reads (n : nat) (reads : list str) {struct reads} : list str :=
 (* chunkedWriter.Write: three writes per non-empty read *)
 Definition chunk_writes (d : str) : list str := [hex (N.of_nat (length d)) ++ crlf; d; crlf].
 
+(* res.Trailer when the body has been read: the transport merges undeclared trailer fields into
+   the map iff the map exists (some trailer was declared); Response.Write announced only the
+   declared keys in the Trailer field but writes the whole map after the last chunk.  With no
+   declared trailer the undeclared ones are dropped. *)
+Definition final_trailer (r : resp) : hmap :=
+  match r_trailer r with [] => [] | t => t ++ r_late r end.
+
 Definition go_trailer_keys (t : hmap) : list str := map (fun kv => canon (fst kv)) (sort_hmap t).
 
 Definition go_head_writes (meth : str) (r : resp) : list str :=
@@ -294,7 +302,8 @@ Definition go_body_writes (meth : str) (r : resp) : list str :=
    else if g_te g then flat_map chunk_writes (reads_of r) ++ [b "0" ++ crlf]
    else if (g_cl g =? -1)%Z then reads_of r
    else limit_reads (Z.to_nat (g_cl g)) (reads_of r)) ++
-  (if g_te g then header_writes [] (r_trailer r) ++ [crlf] else []).
+  (* the undeclared trailer fields join the map when the body is read to its end, which a reply to HEAD never is *)
+  (if g_te g then header_writes [] (if g_head g then r_trailer r else final_trailer r) ++ [crlf] else []).
 
 Definition go_writes (meth : str) (r : resp) : list str := go_head_writes meth r ++ go_body_writes meth r.
 
